@@ -16,10 +16,10 @@ MANIFEST = {
     "level_text": "PROOF for the modelled universe (coq/c01/C01Theorems.v): header round trip both ways; for each of the leaf "
                   "kinds ftyp styp free skip mdat mfhd tfhd tfdt trun mvhd tkhd sidx trex mdhd hdlr stts stsc stsz stco co64 stss sdtp "
                   "ctts elst saiz saio sbgp prft tenc frma vmhd smhd nmhd sthd mfro mehd tfra pssh url avcC btrt pasp colr clap schm cslg senc(raw) emsg elng kind hvcC subs esds(ES_Descriptor, DecoderConfig with nested descriptors, DecSpecificInfo, SLConfig, raw descriptors, UnknownData, size fields of any width) uuid(tfxd, tfrf, PIFF senc, unknown) sgpd(seig roll rap alst unknown entries) "
-                  "data(type indicator, locale, value) mime vttC vlab ctim iden sttg payl vtta vtte vsid "
+                  "data(type indicator, locale, value) mime dac3 dec3(substreams) vttC vlab ctim iden sttg payl vtta vtte vsid "
                   "and the field prefixes of stsd, dref, VisualSampleEntry (avc1 avc3 hvc1 hev1 encv av01 vp08 vp09), AudioSampleEntry "
                   "(mp4a enca ac-3 ec-3), wvtt and the ISO form of meta, everything the decoder accepts is reproduced from the decoded value plus the captured bytes "
-                  "(C01_leaf_lossless_stage1..3,5 = one conjunct per kind, C01_leaf_table, C01_pre_table); C01_tree: every slice accepted by the model of DecodeBoxSR "
+                  "(C01_leaf_lossless_stage1..3,5 = one conjunct per kind; dac3/dec3: under the guard that the payload is InitialZeroes+3 bytes / the substreams' reserved bits are 0, C01_leaf_table, C01_pre_table); C01_tree: every slice accepted by the model of DecodeBoxSR "
                   "(pure containers moov trak mdia minf stbl moof traf mvex dinf edts udta sinf schi mfra tref ilst (c)ART (c)nam (c)too (c)cpy desc vttc and the "
                   "QuickTime form of meta chosen by the look-ahead of DecodeMetaSR, prefixed containers, unknown "
                   "boxes, the leaves above, any nesting) whose tree is exact re-encodes bit for bit; C01_why_complete / "
@@ -45,14 +45,14 @@ MANIFEST = {
                   "every excluded shape / defect class is witnessed by a *_refuted theorem (file level: C01_file_truncated_mdat_refuted); "
                   "complete real files and a real udta{meta{hdlr ilst{(c)too{data}}}} box in both MetaBox forms decode inside Coq, are "
                   "exact and re-encode to themselves (C01_real_*, C01_ex_meta_*). EXPLORATION "
-                  "for every other registered box type (stpp dac3 dec3 av1C vpcC emib ... reached through harvested testdata boxes, hand-written seeds, "
+                  "for every other registered box type (stpp av1C vpcC emib ... reached through harvested testdata boxes, hand-written seeds, "
                   "structured valid variants and mutations) and for files that reach TrafBox.ParseReadSenc: masked byte equality, second decode, third encode on the real implementation.",
     "level_note": "Trusted: Coq kernel, extraction, OCaml/Go glue, the hand transcription of the Go text into C01Model.v / C01FileModel.v (tied to "
                   "/repo by the correspondence run on every check), the scanner and generators of the harness. The model follows "
                   "the SliceReader path; reader-path differences are counted, not modelled (C03). esds fuel: box size + 65536 (descriptor count and nesting of slices below 128 KiB), beyond that the model answers OutOfFuel. Not modelled: "
                   "the per-sample structure of senc (kept raw, as DecodeSencSR does) and hence TrafBox.ParseReadSenc at the File level (separate "
-                  "outcome FSencParse, compared with nothing; C02/C04 model the parse), stpp (its child loop counts consumed bytes: a third loop kind), "
-                  "dac3, dec3 (explored only), DecodeFile's reader path, lazy mdat mode and the DecISMFlag mfra look-up. "
+                  "outcome FSencParse, compared with nothing; C02/C04 model the parse), stpp (its child loop counts consumed bytes: a third loop kind; explored only), "
+                  "DecodeFile's reader path, lazy mdat mode and the DecISMFlag mfra look-up. "
                   "c01_dontcare.json: entries with source=model are "
                   "regenerated from the model (rsv_dc marks which captured chunks are ISO reserved) on every run; source=hand entries are "
                   "hand-written. Search failures of mutants made of modelled types are labelled with the model's reason (a failing mutant "
@@ -175,6 +175,8 @@ REASON_SIG = {
     "piff-senc-sample-count-zero-data-dropped": ("uuid", "model:piff-senc-sample-count-zero-data-dropped-size-kept"),
     "trun-data-offset-zero": ("trun", "accepted-but-encode-error"),
     "wvtt-prefix-cut-short": ("leaf-decoders", "header-size-ignored"),     # C01_wvtt_short_refuted
+    "dac3-payload-not-zeroes-plus-3-bytes": ("dac3", "model:payload-shorter-than-3-bytes-padded-or-256k-extra-bytes-dropped"),
+    "dec3-reserved-bits-rewritten": ("leaf-decoders", "model:reserved-bits-outside-the-listed-bytes-rewritten"),
     "moof-trun-data-offset-zero": ("trun", "accepted-but-encode-error"),
 }
 NORMALISATIONS = ("large-size-header-compacted", "trak-reordered")
